@@ -634,6 +634,36 @@ pub fn check_program(out: &mut Out, ast: &Ast, model: &Model, r: &mut Rng) {
             }
         }
     }
+    // an operator that lacks its right operand is applied (and fails) only after the operand it has was evaluated: the
+    // program in parentheses runs with all its effects, then the incomplete application fails — or the program's own
+    // failure is reported
+    if judged && !matches!(rr.result, Err(crate::refmodel::eval::RErr::Unclaimed(_))) && r.chance(1, 3) {
+        let op = *r.pick(&BINOPS);
+        let src2 = format!("( {} ) {}", src, op);
+        if let Built::Tree(t2) = api::build(&src2) {
+            let entry = if r.chance(1, 2) { Entry::TreeMut } else { Entry::StrMut };
+            let i2 = exec::run_impl(&src2, Some(&t2), model, entry, false);
+            out.eval();
+            out.count("incomplete operator applications after a program with effects");
+            let same_log = rr.run.log.len() == i2.effects.len() && rr.run.log.iter().zip(&i2.effects).all(|(a, b)| a.same(b));
+            let result_ok = match (&rr.result, i2.got.lifted()) {
+                (_, None) => false,
+                (Ok(_), Some(Err(crate::refmodel::errs::ErrClass::Arity))) => true,
+                (Ok(_), Some(_)) => false,
+                (Err(_), Some(l)) => crate::refmodel::eval::outcome_matches(&rr.result, &l),
+            };
+            if !same_log || !result_ok || !api::same_vars(&rr.after.vars, &i2.vars_after) {
+                out.violation(
+                    "order/incomplete-operator-application",
+                    format!("{}   [initial context {}]", src2, model.show_vars()),
+                    format!("{} ; effects {} ; final {}", if rr.result.is_ok() { "Err(wrong operator argument amount)".to_string() } else { exec::show_ref_result(&rr.result) }, exec::show_effects(&rr.run.log), rr.after.show_vars()),
+                    format!("{} ; effects {} ; final {}", i2.got.show(), exec::show_effects(&i2.effects), api::show_vars(&i2.vars_after)),
+                );
+            }
+        } else {
+            out.count("incomplete operator applications rejected at precompilation (not judged)");
+        }
+    }
     // the typed views evaluate exactly once as well: same effects, same final context
     if judged {
         let which = r.below(14);
